@@ -9,6 +9,8 @@ Line-protocol handler shared by the C11 and C12 drivers (see `harness/props/h5li
     N     := Python None where an optional integer is expected
 
     mc <nwrites> { <maxWaves> <ncols> { <name> <len> <bit>* }* }*      (component-trigger table, H5Mc)
+    lk <nrows> <n> { <start> <len> }*n <sr|N> <a|N> <b|N> <c|N>    (look-up table with arbitrary cells: f[a:b:c])
+    lki <nrows> <n> { <start> <len> }*n <sr|N>                      (… iteration)
     dump FILE | iter FILE <sr> | int FILE <key> | slice FILE <sr> <a> <b> <c> | fg <sr> <nfiles> FILE*
 -/
 namespace H5Proto
@@ -132,8 +134,52 @@ def pWrite : P (Nat × List (String × List Bool)) := fun ts => do
   let (cols, ts) ← pMany pCol nc ts
   pure ((n, cols), ts)
 
+/-- a file with `n` one-particle events and a look-up table (column slot `noise`) of `nrows` rows
+indexed by arbitrary cells, as `add_analysis_indices` can produce them -/
+def lookupFile (nrows : Nat) (cells : List (Nat × Nat)) : File :=
+  { rows := fun | .particles => (List.range cells.length).map (fun i => Row.data i 0)
+                | .noise => (List.range nrows).map (Row.data 0) | _ => [],
+    exists_ := fun | .particles => true | .noise => true | _ => false,
+    cols := [.particles, .noise],
+    counter := fun | .particles => cells.length | .noise => nrows | _ => 0,
+    index := cells.zipIdx.map (fun (v, i) => fun | .particles => (i, 1) | .noise => v | _ => (0, 0)),
+    nEvents := cells.length, thrown := some cells.length, calls := cells.length }
+
+def pCell : P (Nat × Nat) := fun ts => do
+  let (a, ts) ← pNat ts
+  let (b, ts) ← pNat ts
+  pure ((a, b), ts)
+
+def lkS (res : List (Tbl → List Row) × Err) : String :=
+  s!"{errS res.2} | " ++ ";".intercalate (res.1.map (fun ev =>
+    ",".intercalate ((ev .noise).map (fun r => match r with | .data _ k => toString k | .gap => "g"))))
+
+def handleLk (iter : Bool) (r : List String) : String :=
+  match r with
+  | nr :: n :: r =>
+    match nr.toNat?, n.toNat? with
+    | some nr, some n =>
+      match pMany pCell n r with
+      | some (cells, r) =>
+        match pOptInt r with
+        | some (sr, r) =>
+          if iter then (if r = [] then lkS (iterAll (lookupFile nr cells) sr) else "bad-op") else
+          match pOptInt r with
+          | some (a, r) => match pOptInt r with
+            | some (b, r) => match pOptInt r with
+              | some (c, []) => lkS (getitemSlice (lookupFile nr cells) sr a b c)
+              | _ => "bad-op"
+            | none => "bad-op"
+          | none => "bad-op"
+        | none => "bad-op"
+      | none => "bad-op"
+    | _, _ => "bad-op"
+  | _ => "bad-op"
+
 def handle (ts : List String) : String :=
   match ts with
+  | "lk" :: r => handleLk false r
+  | "lki" :: r => handleLk true r
   | "mc" :: nw :: r =>
     match nw.toNat? with
     | some nw =>
